@@ -284,7 +284,7 @@ Proof. intro H. unfold spec_colour. now rewrite andb_false_r. Qed.
 (* the colour seen equals the colour specified, except for the combination the terminal
    itself cannot tell apart: bold + dark basic colour on a bright-is-bold terminal *)
 Lemma perceived_fg_lemma bib bbb a : valid_spec a ->
-  (bib && a_bold a && negb (fg_true a) && negb (fg_high a) && fg_basic a && (fg_num a <? 8) = false) ->
+  (bib && a_bold a && negb (fg_true a) && (fg_high a || fg_basic a) && (fg_num a <? 8) = false) ->
   perceived_colour (t_fg (visual bib bbb a)) (t_bold (visual bib bbb a)) bib = t_fg (exact_state a).
 Proof.
   intros (V1 & V2 & V3 & _) Hamb.
@@ -292,13 +292,13 @@ Proof.
   cbn [t_fg t_bold].
   destruct (fg_true a) eqn:Et; [reflexivity|].
   destruct (fg_high a) eqn:Eh.
-  - specialize (V2 eq_refl eq_refl). cbn [negb andb]. rewrite andb_false_r, orb_false_r.
-    cbn [negb andb] in Hamb.
+  - specialize (V2 eq_refl eq_refl). cbn [negb andb orb] in *.
+    rewrite ?andb_false_r, ?orb_false_r in *.
     destruct bib; cbn [andb] in *; [|reflexivity].
     destruct (a_bold a); cbn [andb] in *; [|reflexivity].
-    rewrite andb_false_r. rewrite andb_false_r in Hamb. reflexivity.
+    destruct (fg_num a <? 8) eqn:E8; [discriminate|]. now rewrite andb_false_r.
   - destruct (fg_basic a) eqn:Eb; [|reflexivity].
-    specialize (V3 eq_refl eq_refl eq_refl). cbn [negb andb] in *.
+    specialize (V3 eq_refl eq_refl eq_refl). cbn [negb andb orb] in *.
     destruct (7 <? fg_num a) eqn:E7; destruct bib; cbn [andb orb] in *.
     + rewrite orb_true_r. cbn [andb].
       destruct (0 <=? fg_num a - 8) eqn:E0; [|lia]. destruct (fg_num a - 8 <? 8) eqn:E8; [|lia].
